@@ -152,6 +152,17 @@ Proof.
   - eapply (IH q _ k' cid); [| | |exact E|exact G']; cbn [k_H k_slab]; [exact O1 | exact G | exact L1].
 Qed.
 
+(* the last hop: the executor task moves what the top-level command hands over to the back of the core's event channel
+   (an event) or of its request channel (an effect), and polls again *)
+Lemma xrun_task_moves_event f q k cid e H1 :
+  xget q (k_slab k) = Some cid -> poll_next FUEL cid (WExec q) (k_H k) = Some (PNEvent e, H1) ->
+  xrun_task FUEL (S f) q k = xrun_task FUEL f q (mkC H1 (k_spawn k) (k_slab k) (k_events k ++ [e]) (k_out k) (k_log k) (k_reqs k)).
+Proof. intros G E. cbn [xrun_task]. rewrite G, E. reflexivity. Qed.
+Lemma xrun_task_moves_effect f q k cid e H1 :
+  xget q (k_slab k) = Some cid -> poll_next FUEL cid (WExec q) (k_H k) = Some (PNEffect e, H1) ->
+  xrun_task FUEL (S f) q k = xrun_task FUEL f q (mkC (push_hout e H1) (k_spawn k) (k_slab k) (k_events k) (k_out k) (k_log k) (k_reqs k)).
+Proof. intros G E. cbn [xrun_task]. rewrite G, E. reflexivity. Qed.
+
 (* every state of every run of an app under a Core satisfies the order invariant *)
 Inductive creach (hs : handlers) : core -> core -> Prop :=
 | cr_refl k : creach hs k k
